@@ -92,6 +92,8 @@ func hasBoundVar(t *Term) bool {
 	return false
 }
 
+func atomByName(n string) uint32 { return uint32(atom.Lookup([]byte(n))) }
+
 func isAtomType(t types.Type) bool {
 	n, ok := t.(*types.Named)
 	return ok && n.Obj().Pkg() != nil && n.Obj().Pkg().Path() == "golang.org/x/net/html/atom" && n.Obj().Name() == "Atom"
